@@ -3488,6 +3488,11 @@ class NetCDFRead(IORead):
         # Reset 'domain_ancillary_key'
         g["domain_ancillary_key"] = {}
 
+        # Reset 'vertical_crs'. The vertical coordinate references
+        # are keyed by construct identifiers, which are only
+        # meaningful within a single field or domain.
+        g["vertical_crs"] = {}
+
         dimensions = g["variable_dimensions"][field_ncvar]
         g["dataset_compliance"].setdefault(field_ncvar, {})
         g["dataset_compliance"][field_ncvar][
